@@ -277,6 +277,8 @@ def ref_sanity(model):
             return 'node-id'
     if model.start_id is None or not (0 <= model.start_id < n):
         return 'edge-target'
+    if model.named_pattern_cnt is None:
+        return 'header-field'
     for nd in nodes:
         for e in list(nd.v_edges) + list(nd.p_edges):
             if e.dest is None or not (0 <= e.dest < n):
@@ -303,6 +305,9 @@ def corruptions(model):
     """Yield (kind, on_root, apply_fn) for every single-field corruption, and for coherent permutations of the node table."""
     nodes = model.nodes
     n = len(nodes)
+    yield 'start-id-absent', True, (lambda m: setattr(m, 'start_id', None))
+    yield 'start-id>=n', True, (lambda m: setattr(m, 'start_id', len(m.nodes) + 3))
+    yield 'named-pattern-count-absent', True, (lambda m: setattr(m, 'named_pattern_cnt', None))
     for val, nm in ((0, 'version=0'), (bny.VERSION + 1, 'version+1'), (bny.VERSION - 1, 'version-1'), (None, 'version-absent')):
         yield nm, True, (lambda m, val=val: setattr(m, 'version', val))
     # coherent multi-field corruptions: the node table permuted (two nodes exchange their POSITIONS, every id / parent /
